@@ -215,8 +215,17 @@ def heap_writes(path, attr=None, into_loops=True):
 
 def loc_attr(loc):
     """the field name a location term belongs to: attr(x, f) -> f ; sub(attr(x, f), k) -> f"""
-    while loc[0] == 'sub':
-        loc = loc[1]
+    for _ in range(12):
+        if loc[0] == 'sub':
+            loc = loc[1]
+        elif loc[0] == 'elem':
+            loc = loc[1]
+        elif loc[0] == 'call' and loc[1][0] == 'meth' and loc[1][1] in ('items', 'values', 'keys') and loc[2]:
+            loc = loc[2][0]
+        elif loc[0] == 'call' and loc[1] in (('ext', 'LIST'), ('ext', 'SORTED'), ('ext', 'TUPLE')) and loc[2]:
+            loc = loc[2][0]
+        else:
+            break
     if loc[0] == 'attr':
         return loc[2]
     if loc[0] == 'call' and loc[1][0] == 'meth':
@@ -297,3 +306,23 @@ def normal(paths):
 
 def raising(paths):
     return [p for p in paths if p.outcome == 'raise']
+
+
+def nested_events(path):
+    """yield (event, enclosing loop events, conditions in force) for every event of a path, descending into loop bodies;
+    conditions = the path's own branch conditions plus those of the enclosing body paths"""
+    def rec(events, loops, conds):
+        for e in events:
+            yield e, loops, conds
+            if e.kind == 'loop':
+                for b in e.paths:
+                    yield from rec(b.events, loops + [(e, b)], conds + list(b.conds))
+    yield from rec(path.events, [], list(path.conds))
+
+
+def props_only(caller, callee, depth):
+    return callee.is_property and depth <= 6
+
+
+def kw(ev, name, default=None):
+    return (ev.d.get('kwargs') or {}).get(name, default)
